@@ -171,6 +171,16 @@ theorem clock_once_per_cycle (d : Design) (init : List Nat) (tr : List (List Nat
   have := clock_window 0 tr.length t (by omega) (by omega)
   simpa using this
 
+/-! ## the text wave -/
+
+/-- the text-wave record of a signal, read back, is its sampled value sequence -/
+theorem textwave_record (w : Nat) (vals : List Nat) (h : ∀ v ∈ vals, v < 2 ^ w) :
+    (wavRecord w vals).map (parseWav w) = vals.map some := by
+  simp only [wavRecord, List.map_map]
+  apply List.map_congr_left
+  intro v hv
+  simp only [Function.comp, parse_wav, Nat.mod_eq_of_lt (h v hv)]
+
 /-! ## the `last_values` slip -/
 
 /-- with unequal default values the slip loses a change: nets (clk, a, b), both 4 bits wide, default 5 and 0;
@@ -191,6 +201,7 @@ example :
 
 example : symbol 0 = "!" ∧ symbol 93 = "~" ∧ symbol 94 = "\"!" := by decide
 example : toVcdStr ⟨1, 1⟩ = "1" ∧ toVcdStr ⟨3, 2⟩ = "b010 " := by decide
+example : wavRecord 3 [2, 7, 2] = ["0b010", "0b111", "0b010"] := by decide
 /-- a trace that returns to earlier values, with a net that never changes, clock net in the middle -/
 example :
     let d : Design := { widths := [3, 1, 2, 1], clk := 1, sigs := [0, 0, 2, 3, 1] }
